@@ -8,6 +8,7 @@ import (
 	"fmt"
 	"math/big"
 	"os"
+	"sync"
 
 	"verif/gosym/smt"
 )
@@ -78,13 +79,15 @@ func (p *Path) hashDigest(alg string, payload []Value) Str {
 		conc = append(conc, byte(c))
 	}
 	if allConc {
-		return CStr(realDigest(alg, conc))
+		dg := realDigest(alg, conc)
+		rememberPreimage(dg, conc)
+		return CStr(dg)
 	}
 	p.eng.noteUse("model: hash = uninterpreted function, functional and collision-free (Ackermann expansion per path)")
 	// identical payload object hashed again: reuse
 	for _, h := range p.hashApps {
 		if h.alg == alg && payloadEq(h.payload, payload) == smt.True {
-			return digestStr(alg, h.id)
+			return digestStrOf(alg, h.id, h.payload)
 		}
 	}
 	n, _ := p.freshName("H_" + alg)
@@ -98,7 +101,38 @@ func (p *Path) hashDigest(alg string, payload []Value) Str {
 		p.addPC(smt.Eq(eq, smt.Eq(h.id, id)))
 	}
 	p.hashApps = append(p.hashApps, app)
-	return digestStr(alg, id)
+	return digestStrOf(alg, id, app.payload)
+}
+
+// Digests computed over concrete bytes anywhere in the run, with their
+// preimages: a hash of symbolic content equals such a constant exactly when the
+// content equals the preimage (facts about the real hash function, valid on
+// every path).
+var (
+	preMu     sync.Mutex
+	preimages = map[string][]byte{}
+)
+
+func rememberPreimage(dg string, b []byte) {
+	preMu.Lock()
+	if _, ok := preimages[dg]; !ok {
+		preimages[dg] = append([]byte(nil), b...)
+	}
+	preMu.Unlock()
+}
+
+func knownPreimage(alg, hexs string) ([]byte, bool) {
+	preMu.Lock()
+	b, ok := preimages[alg+":"+hexs]
+	preMu.Unlock()
+	return b, ok
+}
+
+func digestStrOf(alg string, id *smt.T, payload []Value) Str {
+	var bl builder
+	bl.addSeg(Seg{S: alg + ":"})
+	bl.addSeg(Seg{A: &Atom{ID: id, Len: 2 * hashSize(alg), Kind: "hex", Info: alg, Hash: payload}})
+	return bl.str()
 }
 
 // Eval evaluates an Int/Bool term under a model (missing variables = 0).
